@@ -27,7 +27,8 @@ STATES = ("fresh", "after-successful-run", "after-failed-run", "after-two-failed
 # directories of failed runs (they exist only in the corresponding states; gc deletes them while running there)
 CWDS = ("pkg", "docs", "cond-out", "cond-out/pkg", "pkg/sub", "vendor", "vendor/lib", "cond-out/pkg/t.task.500", "cond-out/pkg/t.task.501")
 COMMANDS = (
-    ("run", "//pkg:t"), ("run", "--check", "//pkg:t"), ("run", "--again", "//pkg:t"),
+    ("run", "//pkg:t"), ("run", "--check", "//pkg:t"), ("run", "--again", "//pkg:t"), ("run", "--this-commit", "//pkg:t"),
+    ("run", "--at-least", "HEAD", "//pkg:t"), ("where", ":c"), ("where", "-f", ":c"), ("run", "--check", ":c"),
     ("where", "//pkg:t"), ("where", "-p", "//pkg:t"), ("where", "-f", "//:c"), ("where", "-p", "-f", "//:c"),
     ("gc",), ("gc", "-n"), ("gc", "-v"), ("gc", "-n", "-v"),
     ("archive", "-o", "@ARCH"), ("archive", "//pkg:t", "-l", "-o", "@ARCH"),
@@ -38,9 +39,35 @@ COND_ROOT = "run_command(name='c', run='true')\n"
 COND_PKG = "run_experiment(name='t', run='./exp.sh', deps=['//:c'])\n"
 
 
+HEAD_PROJECT = "aa" * 20
+HEAD_VENDOR = "ee" * 20
+
+
 class Sch(fakeos.Sched):
     def __init__(self, fail):
         self.fail = fail
+
+    def git(self, kernel, argv, cwd):
+        """The project is a git repository with one commit; vendor/ is another repository with another commit.
+        Answers depend on the directory git is run in, as the real git's do."""
+        in_vendor = (os.sep + "vendor") in cwd
+        head = HEAD_VENDOR if in_vendor else HEAD_PROJECT
+        if argv[:2] == ["rev-parse", "--git-dir"]:
+            return ".git\n", 0
+        if argv[0] == "rev-parse":
+            sym = argv[-1].split("^")[0]
+            if sym in ("HEAD", head):
+                return head + "\n", 0
+            return "", 128
+        if argv[:2] == ["diff-index", "--quiet"]:
+            return "", 0
+        if argv[:2] == ["merge-base", "--is-ancestor"] and len(argv) == 4:
+            if argv[2] == head and argv[3] == head:
+                return "", 0
+            return "", 128 if (argv[2] != head or argv[3] != head) else 1
+        if argv[:2] == ["rev-list", "--count"]:
+            return "0\n", 0
+        return "", 128
 
     def on_spawn(self, kernel, proc):
         hrun.snapshot_on_spawn(kernel, proc)
@@ -51,7 +78,7 @@ class Sch(fakeos.Sched):
 
 
 def build(state, base):
-    proj = hrun.Project(scratch_root=base)
+    proj = hrun.Project(scratch_root=base, config="")
     proj.write("COND", COND_ROOT)
     proj.write("pkg/COND", COND_PKG)
     (proj.root / "docs").mkdir()
@@ -175,5 +202,5 @@ def canaries(tier):
         Canary("gc-prints-paths-relative-to-project-root",
                lambda: rewrite("conductor.cli.gc", "main", 'print("Would delete", os.path.relpath(exp_path, cwd))',
                                'print("Would delete", os.path.relpath(exp_path, ctx.project_root))'),
-               preset={"state": 2, "cmd": 8}),
+               preset={"state": 2, "cmd": COMMANDS.index(("gc", "-n", "-v"))}),
     ]
